@@ -99,7 +99,7 @@ def orderbook_tail_specs(seed, n, tag, split=True):
 
 
 # ------------------------------------------------------------------ model builders vs. <Asset>.setup_optim_problem
-ASSET_IMPORTS = 'Num LP Cert Mapping Dcf Grid Assets StorageProofs Periodic Portfolio Corr Build Plant'
+ASSET_IMPORTS = 'Num LP Cert Mapping Dcf Grid Assets StorageProofs Periodic Portfolio Corr Build Ramp Plant'
 ASSET_NAMES = ['accepted/rejected alike', 'c', 'l', 'u', 'rows', 'mapping']
 
 
@@ -112,8 +112,6 @@ def modelled(a):
         # separate heat profiles, profiles in another frequency than the grid's and asset frequencies other than the grid's are not modelled
         if any(a.get(k) for k in ('start_ramp_lower_bounds_heat', 'shutdown_ramp_lower_bounds_heat', 'freq', 'periodicity')):
             return False
-        if any(a.get(k) for k in ('start_ramp_lower_bounds', 'shutdown_ramp_lower_bounds')):
-            return a.get('ramp_freq') is not None and a.get('ramp_freq_is_grid_freq', True)
         return True
     if a.get('block_size'):
         return False
